@@ -151,7 +151,7 @@ def r3_rc_types(ctx):
 def r4_cloexec(ctx):
     """Every fd-creating sink is close-on-exec: the C05.R2 obligations, re-evaluated under C11."""
     out = []
-    for i in c05.r2_forced_flags(ctx):
+    for i in c05.r2_forced_flags(ctx, cloexec_only=True):
         i.rule = "C11.R4"
         out.append(i)
     # dup sites use try_clone_to_owned (F_DUPFD_CLOEXEC)
